@@ -983,6 +983,7 @@ pred structWf(l *log) :=
 func openWriter
     flags assumed
     assigns fPath, fsExists, fsDirty, fsContent
+    ensures ret1 == nil ==> ret0.version == version && ret0.params == params
     ensures ret1 == nil ==> ret0.segment == seg && fresh(ret0.reader) && fresh(ret0.index) && ret0.reader.head && ret0.reader.segment == seg
                             && ret0.messages != nil && ret0.messages.pos >= 0
                             && wfItems(ret0.index.items, ret0.index.nextOffset) && ret0.index.nextOffset >= seg.Offset
@@ -1047,7 +1048,7 @@ func (*reader).Close
     requires[locks] rdLocksFree()
     assigns reader.index, reader.messages
 func (*reader).Delete
-    flags locks only_locks only_sync only_order only_crash only_struct
+    flags locks only_locks only_sync only_order only_crash only_struct only_version
     requires[sync_src] rs != nil && !fsDirty[rs.Log] && !fsDirty[rs.Index]
     requires[struct_ok] r != nil && rs != nil && !r.head && r.segment.Offset >= 0
                         && (forall o int64 :: has(rs.SurviveOffsets, o) ==> o >= r.segment.Offset)
@@ -1058,6 +1059,7 @@ func (*reader).Delete
                             && has(rs.SurviveOffsets, ret0.segment.Offset)
                             && (forall o int64 :: has(rs.SurviveOffsets, o) ==> ret0.segment.Offset <= o)
     ensures[struct_gone]   ret1 == nil ==> (ret0 == nil <==> len(rs.SurviveOffsets) == 0)
+    ensures[version_kept]  ret1 == nil && ret0 != nil ==> ret0.version == old(r.version) && ret0.params == old(r.params)
     ensures[struct_frame]  r.segment == old(r.segment) && r.head == old(r.head)
     // C05: the original is removed only after its replacement is in place (rebase branch)
     assert[order_replace_first] distinct4(rs.Log, rs.Index, nseg.Log, nseg.Index) ==> fsExists[nseg.Log] && fsExists[nseg.Index] at call (Segment).Remove 3
@@ -1109,7 +1111,7 @@ func (*writer).ReopenReader
     ensures[struct_reader] ret0 != nil && fresh(ret0) && !ret0.head && ret0.segment == w.segment
     ensures[struct_next]   ret1 == w.index.nextOffset && ret2 == w.index.nextTime
 func (*writer).Delete
-    flags locks only_locks only_sync only_order only_crash only_struct
+    flags locks only_locks only_sync only_order only_crash only_struct only_version
     requires[sync_src] rs != nil && !fsDirty[rs.Log] && !fsDirty[rs.Index]
     requires[sync_ok] wOK(w)
     requires[struct_ok] wrS(w) && rs != nil && len(rs.DeletedMessages) > 0
@@ -1124,6 +1126,8 @@ func (*writer).Delete
     // C02: whenever the newest message is deleted the new empty head is named after NextOffset, so the
     // offset is not handed out again (also after a reopen)
     ensures[struct_newhead] ret2 == nil && (ret1 != nil || len(rs.SurviveOffsets) == 0) ==> ret0.segment.Offset == old(w.index.nextOffset)
+    // C17: the handle keeps the configured version for segments it creates later
+    ensures[version_kept]   ret2 == nil ==> ret0.version == old(w.version) && (ret1 != nil ==> ret1.version == old(w.version))
     assert[order_replace_first] distinct4(rs.Log, rs.Index, nseg.Log, nseg.Index) ==> fsExists[nseg.Log] && fsExists[nseg.Index] at call (Segment).Remove 4
     // C05/C02: when everything was deleted, the new empty head named after NextOffset exists before the
     // old head is removed (otherwise a crash in between lets NextOffset move backwards)
@@ -1131,7 +1135,7 @@ func (*writer).Delete
     assert[crash_nodup] distinct4(rs.Log, rs.Index, nseg.Log, nseg.Index) && nseg.Log != w.segment.Log ==> !(fsExists[nseg.Log] && fsExists[w.segment.Log]) at call (Segment).Remove 4
     requires[locks] rdLocksFree() && ixLocksFree()
 func (*log).Publish
-    flags locks only_locks only_sync only_struct noframe
+    flags locks only_locks only_sync only_struct only_version noframe
     requires[sync_ok] !l.opts.Readonly ==> wOK(l.writer)
     requires[struct_ok] structWf(l) && len(msgs) <= 1048576
     // machine bound (not part of INV): slice lengths stay far below 2^63
@@ -1151,6 +1155,8 @@ func (*log).Publish
     ensures[sync_ok] !l.opts.Readonly ==> wOK(l.writer)
     // the old head is durable before the new segment's files are created
     assert[sync_rollover] wClean(oldWriter) at call openWriter 1
+    // C17: a new segment is created in NewSegmentsVersion
+    assert[version_new] arg2 == l.opts.Version.NewSegmentsVersion at call openWriter 1
     requires[locks] nolocks()
 func (*log).ConsumeByKey
     flags locks lockonly noframe
@@ -1169,7 +1175,14 @@ func (*log).Delete
     ensures[struct_empty]    !old(l.opts.Readonly) && old(len(offsets)) == 0 ==> ret2 == nil && ret0 == nil && ret1 == 0
     ensures[struct_wf]       structWf(l)
 func (*log).delete
-    flags locks only_locks only_sync only_struct noframe
+    flags locks only_locks only_sync only_struct only_version noframe
+    // C17: the version handed to the rewrite: NewSegmentsVersion, or with KeepRewriteVersion the version
+    // detected in the segment being rewritten (message and index version always change together)
+    assert[version_new]   !l.opts.Version.KeepRewriteVersion ==> mversion == l.opts.Version.NewSegmentsVersion.messages && iversion == l.opts.Version.NewSegmentsVersion.index at call (Segment).Rewrite 1
+    assert[version_keep1] l.opts.Version.KeepRewriteVersion && wasWriter && writerVersion == message.V1 ==> mversion == message.V1 && iversion == index.V1 at call (Segment).Rewrite 1
+    assert[version_keep2] l.opts.Version.KeepRewriteVersion && wasWriter && writerVersion == message.V2 ==> mversion == message.V2 && iversion == index.V2 at call (Segment).Rewrite 1
+    assert[version_pair]  (mversion == message.V1 && iversion == index.V1) || (mversion == message.V2 && iversion == index.V2)
+                          || (mversion == l.opts.Version.NewSegmentsVersion.messages && iversion == l.opts.Version.NewSegmentsVersion.index) at call (Segment).Rewrite 1
     requires[sync_ok] wOK(l.writer)
     requires[struct_ok] structWf(l) && !l.opts.Readonly
     assigns all
